@@ -11,6 +11,9 @@ R07.2 loop shape: per digit exactly one doubling precedes the optional addition;
 R07.3 short-circuits pair each multiplier with its own point.
 R07.4 a scalar is reduced only modulo (a multiple of) the declared order and only when an
       order is declared.
+R07.6 identity typestate: a value that may be the legacy identity object (the direct result of
+      an operation whose return set contains INFINITY) is the receiver only of operations
+      class Point defines identity-safely, unless guarded by == INFINITY.
 R07.5 the exactness / invariant rules of C06 hold inside the multiplication loops (same
       analysis, restricted to __mul__, _mul_precompute, mul_add).
 """
@@ -66,11 +69,14 @@ def run(chk):
     chk.rule("R07.3", "short-circuits pair each multiplier with its own point")
     chk.rule("R07.4", "scalar reductions use only the declared order and are guarded by its presence")
     chk.rule("R07.5", "C06 exactness / invariant rules inside the multiplication loops")
+    chk.rule("R07.6", "identity typestate: possibly-identity results are used only through identity-safe operations or under an == INFINITY guard")
     chk.rule("R06.4", "(shared with C06) Y == 0 treated as the identity outside doubling")
     chk.configs = ["py3"]
     W = world()
     p = W.p
     M = ModP(p, "PointJacobi")
+    from . import identity
+    identity.rule(chk, W, "R07.6", "C07", [p.func("ellipticcurve:" + q) for q in identity.MULT_FUNCS], 2)
     L = lambda n: "src/ecdsa/ellipticcurve.py:%d" % n.lineno
     calls_by_node = {id(c[1]): c for c in M.call_args}
 
